@@ -9,6 +9,7 @@ replays the behaviours into the real load function with its own relation.
 """
 import fcntl
 import hashlib
+import common
 import json
 import os
 import random
@@ -615,8 +616,7 @@ def replay(V, pid, cases, sample_filter=None):
         chunks = [cases]
     else:
         chunks = chunked(cases, NCPU * 4)
-        with multiprocessing.get_context('fork').Pool(NCPU) as pool:
-            parts = pool.map(_chunk, chunks)
+        parts = common.fork_map(_chunk, chunks)
     for cs, part in zip(chunks, parts):
         for c, (res, n) in zip(cs, part):
             V.replayed += 1
@@ -1035,8 +1035,7 @@ def c17_strong(V, tier):
     import multiprocessing
     _pid[0] = 'C17S'
     chunks = chunked(cases, NCPU * 2)
-    with multiprocessing.get_context('fork').Pool(NCPU) as pool:
-        parts = pool.map(_chunk, chunks)
+    parts = common.fork_map(_chunk, chunks)
     for cs, part in zip(chunks, parts):
         for c, (res, n) in zip(cs, part):
             V.replayed += 1
@@ -1166,8 +1165,7 @@ def c08_fuzz(V, tier):
         dts = ctx['models'][mid]['doctypes']
         combos += [(mid, dt) for dt in dts[:3]]
     chunks = [(c, combos) for c in chunked(texts, NCPU * 2)]
-    with multiprocessing.get_context('fork').Pool(NCPU) as pool:
-        parts = pool.map(_fuzz_chunk, chunks)
+    parts = common.fork_map(_fuzz_chunk, chunks)
     total = 0
     for bad, n in parts:
         total += n
